@@ -6,13 +6,15 @@ CONSTANTS
   ErrKinds <- OneErr
   KeepHist = FALSE
   Configs <- ScanConfigs
-  Batches = {1, 2, 3}
+  Batches = {1, 3}
   NW = 2
   InitSizes = {0, 2, 3, 4}
   Matchers = {1, 2}
   BufSize = 1
   Kind <- MCKind
-  Sel <- MCSel
+  Class <- MCClass
+  Wants <- MCWants
+  MTypes = {"matcher", "leaf"}
 INIT SInit
 NEXT SNext
 INVARIANTS TypeOK Accounting CallbackSound CallbackComplete ProcessedAll ScanComplete
